@@ -301,3 +301,294 @@ Proof.
   destruct (ftype_contig (l_geom (a_lead a)) (r_count (a_req a)) (l_stride (a_lead a)));
     cbn [fst snd] in *; [eauto | discriminate].
 Qed.
+
+Example req_ftype_pairs_example :
+  let l := mklead 0 gf3 (Some [2; 2; 3]) 0 1 (-1) false false (-1) 5000 12 None 0
+                  [([1; 0; 2], [2; 3; 2], [2; 2; 3])] in
+  let a := mkareq (mkreq 0 [1; 0; 2] [2; 3; 2] 12 5000) l 0 0 in
+  areq_wf a /\ fst (req_ftype a) = false /\
+  zip (blocks_bytes (snd (req_ftype a))) (expand (req_bblock a)) = areq_pairs a.
+Proof.
+  cbv zeta. split; [|split; vm_compute; reflexivity].
+  unfold areq_wf. cbn [a_lead a_req l_geom l_stride r_start r_count r_nelems req_stride].
+  refine (conj gf3_wf (conj _ (conj gf3_req (conj _ (conj _ (conj _ _)))))).
+  - intros H. vm_compute in H. discriminate.
+  - vm_compute. reflexivity.
+  - lia.
+  - intros H. vm_compute in H. discriminate.
+  - reflexivity.
+Qed.
+
+Example req_ftype_pairs_example_contig :
+  (* one record of the record variable gr3, a contiguous piece of it *)
+  let l := mklead 0 gr3 None 0 1 6 false false (-1) 7000 8 None 0
+                  [([5; 1; 0], [1; 2; 4], [1; 1; 1])] in
+  let a := mkareq (mkreq 0 [5; 1; 0] [1; 2; 4] 8 7000) l 0 0 in
+  areq_wf a /\ fst (req_ftype a) = true /\
+  zip (blocks_bytes (snd (req_ftype a))) (expand (req_bblock a)) = areq_pairs a.
+Proof.
+  cbv zeta. split; [|split; vm_compute; reflexivity].
+  unfold areq_wf. cbn [a_lead a_req l_geom l_stride r_start r_count r_nelems].
+  destruct gr3_wf as [Hwf Hfit].
+  refine (conj Hwf (conj Hfit (conj _ (conj _ (conj _ (conj _ I)))))).
+  - unfold req_stride. cbn [l_stride r_start ones_like map gr3 g_shape req_ok dims_ok]. lia.
+  - vm_compute. reflexivity.
+  - lia.
+  - intros _. reflexivity.
+Qed.
+
+(* ================================================================== *)
+(* G3. vars_flatten                                                     *)
+(* ================================================================== *)
+Lemma stride_flatten_snd : forall g s c t,
+  snd (stride_flatten g s c t) = if last t 1 =? 1 then last c 0 else 1.
+Proof. reflexivity. Qed.
+
+(* stride_flatten + expansion of every block = SPEC, for a fixed-size variable and ANY stride
+   (Proofs_Access.strided_path needs a truly strided request only to exclude the 1-D record
+   variable) *)
+Lemma strided_path_fixed : forall g start count stride,
+  g_isrec g = false -> g_shape g <> [] ->
+  length start = length (g_shape g) -> length count = length (g_shape g) ->
+  length stride = length (g_shape g) ->
+  flat_map (fun d => map (fun k => g_begin g + d + k * g_xsz g)
+                         (zrange 0 (snd (stride_flatten g start count stride))))
+           (fst (stride_flatten g start count stride))
+  = spec_offsets g start count stride.
+Proof.
+  intros g start count stride Hnr Hne Hls Hlc Hlt.
+  unfold spec_offsets.
+  rewrite (map_ext _ _ (elem_off_dot g)).
+  unfold stride_flatten. cbv zeta. cbn [fst snd]. fold (g_units g).
+  assert (Hlu : length (g_units g) = length (g_shape g)) by apply dim_units_length.
+  assert (Hul : last stride 1 = 1 -> last (g_units g) (g_xsz g) = g_xsz g).
+  { intros _. apply last_g_units; [right; assumption | assumption]. }
+  remember (g_units g) as units eqn:Eu.
+  destruct (snoc_cases _ start) as [->|[so [sl ->]]];
+    [destruct (g_shape g); [congruence | discriminate]|].
+  destruct (snoc_cases _ count) as [->|[co [cl ->]]];
+    [destruct (g_shape g); [congruence | discriminate]|].
+  destruct (snoc_cases _ stride) as [->|[to [tl_ ->]]];
+    [destruct (g_shape g); [congruence | discriminate]|].
+  destruct (snoc_cases _ units) as [->|[uo [ul ->]]];
+    [destruct (g_shape g); [congruence | discriminate]|].
+  rewrite !app_length in *. cbn [length] in *.
+  rewrite !removelast_snoc, !last_snoc in *.
+  apply flatten_core; [lia | lia | lia | assumption].
+Qed.
+
+(* blocks of seg elements, buffer addresses consecutive *)
+Lemma segs_epairs : forall xsz b L seg a0, 0 <= xsz -> 0 <= seg -> L = seg * xsz ->
+  forall disps k,
+  flat_map seg_pairs (map (fun p => (b + snd p, L, a0 + fst p * L))
+                          (zip (zseq k (length disps)) disps))
+  = epairs xsz (a0 + k * L)
+           (flat_map (fun d => map (fun j => b + d + j * xsz) (zrange 0 seg)) disps).
+Proof.
+  intros xsz b L seg a0 Hx Hseg HL. induction disps as [|d r IH]; intros k.
+  - reflexivity.
+  - cbn [length zseq zip map flat_map fst snd]. rewrite IH. rewrite epairs_app. f_equal.
+    + unfold seg_pairs, s_off, s_len, s_addr. cbn [fst snd].
+      rewrite epairs_run by assumption. subst L. reflexivity.
+    + f_equal. rewrite nbg_Zlen_map, nbg_Zlen_zrange by assumption. subst L. lia.
+Qed.
+
+(* the record-stripped request of vars_flatten *)
+Definition vf_isrec (a : areq) : bool := g_isrec (l_geom (a_lead a)).
+Definition vf_shape (a : areq) : list Z :=
+  if vf_isrec a then tl (g_shape (l_geom (a_lead a))) else g_shape (l_geom (a_lead a)).
+Definition vf_start (a : areq) : list Z :=
+  if vf_isrec a then tl (r_start (a_req a)) else r_start (a_req a).
+Definition vf_count (a : areq) : list Z :=
+  if vf_isrec a then tl (r_count (a_req a)) else r_count (a_req a).
+Definition vf_begin (a : areq) : Z :=
+  g_begin (l_geom (a_lead a)) +
+  (if vf_isrec a then hd 0 (r_start (a_req a)) * g_recsize (l_geom (a_lead a)) else 0).
+Definition vf_stride0 (a : areq) : list Z :=
+  match l_stride (a_lead a) with
+  | Some t => if vf_isrec a then tl t else t
+  | None => ones_like (vf_start a)
+  end.
+Definition vf_geom (a : areq) : geom :=
+  mkgeom (vf_begin a) (g_xsz (l_geom (a_lead a))) (vf_shape a) 0 0.
+
+Lemma vars_flatten_unfold : forall a,
+  vars_flatten a =
+  match vf_shape a with
+  | [] => [(vf_begin a, g_xsz (l_geom (a_lead a)), r_xaddr (a_req a))]
+  | _ :: _ =>
+    let sf := stride_flatten (vf_geom a) (vf_start a) (vf_count a) (vf_stride0 a) in
+    map (fun p => (vf_begin a + snd p, snd sf * g_xsz (l_geom (a_lead a)),
+                   r_xaddr (a_req a) + fst p * (snd sf * g_xsz (l_geom (a_lead a)))))
+        (zip (zrange 0 (Zlen (fst sf))) (fst sf))
+  end.
+Proof.
+  intros a. unfold vars_flatten, vf_geom, vf_stride0, vf_begin, vf_count, vf_start, vf_shape,
+    vf_isrec. cbv zeta.
+  destruct (if g_isrec (l_geom (a_lead a)) then tl (g_shape (l_geom (a_lead a)))
+            else g_shape (l_geom (a_lead a))) as [|z sh']; [reflexivity|].
+  match goal with
+  | |- (let '(d, s) := ?X in _) = _ => destruct X as [d s]
+  end.
+  reflexivity.
+Qed.
+
+Lemma vf_stride0_eq : forall a,
+  vf_stride0 a = if vf_isrec a then tl (req_stride (a_lead a) (a_req a))
+                 else req_stride (a_lead a) (a_req a).
+Proof.
+  intros a. unfold vf_stride0, req_stride, vf_start.
+  destruct (l_stride (a_lead a)) as [t|]; [reflexivity|].
+  destruct (vf_isrec a); [|reflexivity].
+  destruct (r_start (a_req a)); reflexivity.
+Qed.
+
+Lemma strip_rec : forall g s0 st ct t0 ts,
+  g_isrec g = true -> wf_geom g ->
+  let g' := mkgeom (g_begin g + s0 * g_recsize g) (g_xsz g) (tl (g_shape g)) 0 0 in
+  g_isrec g' = false /\
+  spec_offsets g (s0 :: st) (1 :: ct) (t0 :: ts) = spec_offsets g' st ct ts.
+Proof.
+  intros g s0 st ct t0 ts Hrec Hwf g'.
+  destruct Hwf as (_ & _ & Hd & _).
+  destruct (g_isrec_cons g Hrec) as [ss Hs].
+  assert (Hnr : g_isrec g' = false).
+  { unfold g_isrec, g'. cbn [g_shape]. rewrite Hs in Hd |- *. cbn [tl dims_wf] in Hd |- *.
+    destruct Hd as [_ Hd]. destruct ss as [|s1 ss']; [reflexivity|].
+    inversion Hd as [|? ? H1 _]; subst. lia. }
+  split; [assumption|].
+  unfold spec_offsets. cbn [req_indices]. rewrite zrange_1. cbn [flat_map].
+  rewrite app_nil_r. rewrite map_map. apply map_ext. intros x.
+  rewrite elem_off_rec by assumption. rewrite elem_off_fixed by assumption.
+  unfold g'. cbn [g_begin g_xsz g_shape]. lia.
+Qed.
+
+Lemma strip_fixed : forall g start count stride,
+  g_isrec g = false ->
+  let g' := mkgeom (g_begin g + 0) (g_xsz g) (g_shape g) 0 0 in
+  g_isrec g' = false /\ spec_offsets g start count stride = spec_offsets g' start count stride.
+Proof.
+  intros g start count stride Hnr g'.
+  assert (Hnr' : g_isrec g' = false) by exact Hnr.
+  split; [assumption|].
+  unfold spec_offsets. apply map_ext. intros x.
+  rewrite !elem_off_fixed by assumption. unfold g'. cbn [g_begin g_xsz g_shape]. lia.
+Qed.
+
+Lemma vf_spec : forall a, areq_wf a ->
+  g_isrec (vf_geom a) = false /\
+  length (vf_start a) = length (vf_shape a) /\
+  length (vf_count a) = length (vf_shape a) /\
+  length (vf_stride0 a) = length (vf_shape a) /\
+  Forall (fun c => 1 <= c) (vf_count a) /\
+  areq_offs a = spec_offsets (vf_geom a) (vf_start a) (vf_count a) (vf_stride0 a).
+Proof.
+  intros a H. destruct (areq_wf_unpack a H) as (Hwf & _ & Hreq & Hn & Hpos & Hrec & _).
+  rewrite vf_stride0_eq. unfold areq_offs, vf_geom, vf_begin, vf_count, vf_start, vf_shape, vf_isrec.
+  remember (req_stride (a_lead a) (a_req a)) as strd eqn:Es. clear Es.
+  remember (l_geom (a_lead a)) as g eqn:Eg. clear Eg.
+  remember (r_start (a_req a)) as start eqn:Est. clear Est.
+  remember (r_count (a_req a)) as count eqn:Ect.
+  assert (Hcp : Forall (fun c => 1 <= c) count).
+  { apply zprod_nonzero_pos; [eapply req_ok_count_nonneg; eassumption | lia]. }
+  clear Ect Hn Hpos.
+  destruct (req_ok_lengths _ _ _ _ Hreq) as (Hls & Hlc & Hlt).
+  destruct (g_isrec g) eqn:Erec.
+  - specialize (Hrec eq_refl).
+    destruct (g_isrec_cons g Erec) as [ss Hs].
+    rewrite Hs in Hls, Hlc, Hlt. cbn [length] in Hls, Hlc, Hlt.
+    destruct start as [|s0 st]; [discriminate|].
+    destruct count as [|c0 ct]; [discriminate|].
+    destruct strd as [|t0 ts]; [discriminate|].
+    cbn [hd] in Hrec. subst c0. cbn [tl hd length] in *.
+    inversion Hcp as [|? ? _ Hcp']; subst.
+    destruct (strip_rec g s0 st ct t0 ts Erec Hwf) as [Hnr Hsp]. cbv zeta in Hnr, Hsp.
+    rewrite Hs in *. cbn [tl length] in *.
+    repeat split; try assumption; lia.
+  - destruct (strip_fixed g start count strd Erec) as [Hnr Hsp]. cbv zeta in Hnr, Hsp.
+    repeat split; assumption.
+Qed.
+
+Theorem vars_flatten_pairs : forall a, areq_wf a -> segs_pairs (vars_flatten a) = areq_pairs a.
+Proof.
+  intros a H. rewrite areq_pairs_epairs by assumption.
+  destruct (vf_spec a H) as (Hnr & Hls & Hlc & Hlt & Hcp & Hsp).
+  destruct (areq_wf_unpack a H) as ((Hx & _) & _).
+  rewrite Hsp. rewrite vars_flatten_unfold.
+  destruct (vf_shape a) as [|z sh'] eqn:Esh.
+  - cbn [length] in Hls, Hlc, Hlt.
+    apply length_zero_iff_nil in Hls. apply length_zero_iff_nil in Hlc.
+    apply length_zero_iff_nil in Hlt. rewrite Hls, Hlc, Hlt.
+    unfold spec_offsets. cbn [req_indices map]. rewrite elem_off_fixed by assumption.
+    change (g_shape (vf_geom a)) with (vf_shape a). rewrite Esh. cbn [lin].
+    change (g_begin (vf_geom a)) with (vf_begin a).
+    unfold segs_pairs. cbn [flat_map epairs]. unfold seg_pairs, s_off, s_len, s_addr.
+    cbn [fst snd]. do 2 f_equal. lia.
+  - cbv zeta.
+    set (sf := stride_flatten (vf_geom a) (vf_start a) (vf_count a) (vf_stride0 a)).
+    assert (Hseg : 1 <= snd sf).
+    { unfold sf. rewrite stride_flatten_snd.
+      destruct (last (vf_stride0 a) 1 =? 1); [|lia].
+      apply (nbg_last_Forall (fun c => 1 <= c)); [assumption|].
+      intros E. rewrite E in Hlc. discriminate. }
+    unfold segs_pairs. rewrite nbg_zrange_zseq.
+    rewrite (segs_epairs (g_xsz (l_geom (a_lead a))) (vf_begin a)
+               (snd sf * g_xsz (l_geom (a_lead a))) (snd sf) (r_xaddr (a_req a)))
+      by (lia || reflexivity).
+    rewrite <- (strided_path_fixed (vf_geom a) (vf_start a) (vf_count a) (vf_stride0 a));
+      [ | assumption
+        | change (g_shape (vf_geom a)) with (vf_shape a); rewrite Esh; discriminate
+        | change (g_shape (vf_geom a)) with (vf_shape a); rewrite Esh; assumption
+        | change (g_shape (vf_geom a)) with (vf_shape a); rewrite Esh; assumption
+        | change (g_shape (vf_geom a)) with (vf_shape a); rewrite Esh; assumption ].
+    fold sf. f_equal. lia.
+Qed.
+
+Theorem vars_flatten_pos : forall a, areq_wf a -> Forall (fun s => 0 < s_len s) (vars_flatten a).
+Proof.
+  intros a H.
+  destruct (vf_spec a H) as (Hnr & Hls & Hlc & Hlt & Hcp & Hsp).
+  destruct (areq_wf_unpack a H) as ((Hx & _) & _).
+  rewrite vars_flatten_unfold.
+  destruct (vf_shape a) as [|z sh'] eqn:Esh.
+  - constructor; [|constructor]. unfold s_len. cbn [fst snd]. assumption.
+  - cbv zeta.
+    set (sf := stride_flatten (vf_geom a) (vf_start a) (vf_count a) (vf_stride0 a)).
+    assert (Hseg : 1 <= snd sf).
+    { unfold sf. rewrite stride_flatten_snd.
+      destruct (last (vf_stride0 a) 1 =? 1); [|lia].
+      apply (nbg_last_Forall (fun c => 1 <= c)); [assumption|].
+      intros E. rewrite E in Hlc. discriminate. }
+    apply Forall_forall. intros s Hin. apply in_map_iff in Hin. destruct Hin as [p [<- _]].
+    unfold s_len. cbn [fst snd]. nia.
+Qed.
+
+Example vars_flatten_pairs_example :
+  (* one record of gr3, strided in the last dimension; and a strided request on gf3 *)
+  let l := mklead 0 gr3 (Some [4; 1; 3]) 0 3 14 false false (-1) 7000 12 None 0
+                  [([5; 1; 0], [3; 2; 2], [4; 1; 3])] in
+  let a := mkareq (mkreq 0 [9; 1; 0] [1; 2; 2] 4 7032) l 0 0 in
+  let l2 := mklead 2 gf3 (Some [2; 2; 1]) 3 1 (-1) false false (-1) 5000 24 None 0
+                   [([1; 0; 2], [2; 3; 4], [2; 2; 1])] in
+  let a2 := mkareq (mkreq 1 [1; 0; 2] [2; 3; 4] 24 5000) l2 0 0 in
+  areq_wf a /\ segs_pairs (vars_flatten a) = areq_pairs a /\ Zlen (vars_flatten a) = 4 /\
+  areq_wf a2 /\ segs_pairs (vars_flatten a2) = areq_pairs a2 /\ Zlen (vars_flatten a2) = 6.
+Proof.
+  cbv zeta. destruct gr3_wf as [Hwf Hfit].
+  refine (conj _ (conj _ (conj _ (conj _ (conj _ _))))); try (vm_compute; reflexivity).
+  - unfold areq_wf. cbn [a_lead a_req l_geom l_stride r_start r_count r_nelems req_stride].
+    refine (conj Hwf (conj Hfit (conj _ (conj _ (conj _ (conj _ _)))))).
+    + cbn [gr3 gf3 g_shape req_ok dims_ok]. lia.
+    + vm_compute. reflexivity.
+    + lia.
+    + intros _. reflexivity.
+    + reflexivity.
+  - unfold areq_wf. cbn [a_lead a_req l_geom l_stride r_start r_count r_nelems req_stride].
+    refine (conj gf3_wf (conj _ (conj _ (conj _ (conj _ (conj _ _)))))).
+    + intros E. vm_compute in E. discriminate.
+    + cbn [gr3 gf3 g_shape req_ok dims_ok]. lia.
+    + vm_compute. reflexivity.
+    + lia.
+    + intros E. vm_compute in E. discriminate.
+    + reflexivity.
+Qed.
